@@ -364,25 +364,29 @@ def loop_items(tier, seed):
     for cfg, pat in plan:
         for i, s in enumerate(scripts_):
             out.append(dict(name=f"loop-{cfg}-{pat}-{s}", part="loop", cfg=cfg, pattern=pat, script=s, seed=seed))
+            if i % 3 == 1:
+                # a continued run: the iteration count that the threshold refers to starts at global_step - learning_starts
+                out.append(dict(name=f"loop-{cfg}-{pat}-{s}-resumed", part="loop", cfg=cfg, pattern=pat, script=s, seed=seed, global_step=4))
             if i % 3 == 0:
                 # a batch larger than the buffer content at the first releases (sampling is with replacement)
                 out.append(dict(name=f"loop-{cfg}-{pat}-{s}-bs9", part="loop", cfg=cfg, pattern=pat, script=s, seed=seed, batch_size=9))
     return out
 
 
-def predict(env_steps, cfg):
+def predict(env_steps, cfg, g0=0):
     """Feed the environment's own log to the window machine.
 
-    env_steps: [(reward, ended)] per executed step.  -> per step: dict(released, checkpoint, kind)"""
+    env_steps: [(reward, ended)] per executed step.  -> per step: dict(released, checkpoint, kind)
+    g0: starting step count of a continued run (iterations so far = g0 - warm-up, documented for global_step)."""
     ref = WindowMachine(cfg["win"], cfg["thr"], cfg["w"])
     out = []
-    length, ret, its = 0, 0.0, 0
+    length, ret, its = 0, 0.0, max(0, g0 - WARMUP)
     for t, (r, ended) in enumerate(env_steps):
         length += 1
         ret += r
         p = dict(released=0, checkpoint=False, kind=None, switched=False, length=length, ret=ret)
         if ended:
-            if t >= WARMUP:
+            if g0 + t >= WARMUP:
                 ck, rel, kind, sw = ref.episode(length, ret, its)
                 its += rel
                 p.update(released=rel, checkpoint=ck, kind=kind, switched=sw, window=ref.window)
@@ -499,7 +503,8 @@ def l_work(item, col):
     try:
         res = train_td7(
             env, st.embedding, st.embedding_optimizer, st.actor, st.actor_optimizer, st.critic, st.critic_optimizer,
-            seed=seed, total_timesteps=T, buffer_size=16, batch_size=item.get("batch_size", 2), learning_starts=WARMUP,
+            seed=seed, total_timesteps=T + int(item.get("global_step", 0)), global_step=int(item.get("global_step", 0)), buffer_size=16,
+            batch_size=item.get("batch_size", 2), learning_starts=WARMUP,
             target_delay=cfg["target_delay"], policy_delay=cfg["policy_delay"], use_checkpoints=True,
             max_episodes_when_checkpointing=cfg["win"], steps_before_checkpointing=cfg["thr"],
             reset_weight=cfg["w"], progress_bar=False, logger=lg,
@@ -512,7 +517,7 @@ def l_work(item, col):
 
     # ground truth from the environment's log, prediction from the window machine
     steps = [(e[3], bool(e[4] or e[5])) for e in env.log if e[0] == "step"]
-    pred = predict(steps, cfg)
+    pred = predict(steps, cfg, int(item.get("global_step", 0)))
     # observed: critic updates and checkpoint copies between consecutive environment steps
     upd = [0] * len(steps)
     copies = [0] * len(steps)
@@ -525,7 +530,7 @@ def l_work(item, col):
         elif ev[0] == "epoch" and ev[1] == "actor_checkpoint":
             copies[cur] += 1
     assert cur == len(steps) - 1
-    name = (item["cfg"], item["pattern"], script, item.get("batch_size", 2))
+    name = (item["cfg"], item["pattern"], script, item.get("batch_size", 2), item.get("global_step", 0))
     for t, p in enumerate(pred):
         assessed = p["kind"] in ("open", "cut", "complete")
         col.tick(1, ("l", name, t) if assessed else None)
